@@ -42,5 +42,19 @@ CHECKS = {
         design_ref="DESIGN.md section 3, C09",
         note=NOTE_L1 + "; M_geo is used only to decide representability of intermediates",
     ),
+    "C10": dict(
+        engine="lattice",
+        technique="bounded exhaustive enumeration of law x rotation spelling x coordinate system/dimension x vector x angle / axis / Euler order and triple / quaternion alphabets; metamorphic rotation laws through public methods at 60 digits and in float64",
+        text="Norm, dot-product and handedness preservation, untouched temporal coordinate, additivity and inversion about a fixed axis, rotate_axis about coordinate axes = rotateX/Y/Z and independence of axis length and storage, quaternion = axis-angle, rotate_euler = the documented product of three axis rotations for all 12 orders in lower/upper/mixed case and the default order, rotate_nautical = rotate_euler(roll, pitch, yaw, 'zyx'), for all 2/6/12 systems of the rotated vector and all 6 systems of the axis.",
+        design_ref="DESIGN.md section 3, C10",
+        note=NOTE_L1,
+    ),
+    "C11": dict(
+        engine="lattice",
+        technique="bounded exhaustive enumeration of algebraic law x coordinate-system pairing x flavor x operand pair/triple x factors at 60 digits, plus operator / NumPy-ufunc form x backend x system in float64; each law evaluated through public methods and compared with the exact Cartesian value",
+        text="Commutativity, associativity, subtraction as inverse, distributivity, composition of scalings, negation = scale(-1), symmetry/bilinearity/metric of dot, v.v = rho2/mag2/tau2, antisymmetry/bilinearity/orthogonality/Lagrange identity of cross, unit() of norm one, for all 4/36/144 system pairings (triples diagonal+cross in quick) and both flavors; then + - * / @ unary -, +, abs, **, numpy.add/subtract/multiply/true_divide/negative/absolute/square/power/sqrt/cbrt against the method or norm-based definition on object, NumPy and Awkward vectors.",
+        design_ref="DESIGN.md section 3, C11",
+        note=NOTE_L1,
+    ),
 }
 NOT_YET = {}
